@@ -297,6 +297,14 @@ class XMLReader(object):
                 xml_file.close()
         except ET.XMLSyntaxError as exc:
             raise ParserException(exc.msg)
+        except OSError:
+            # Bytes that are invalid in the encoding of the file are reported by the
+            # I/O layer of libxml2; for named files lxml raises OSError for those.
+            # The file was read, its content cannot be parsed.
+            err = self.parser.error_log.last_error
+            if err is not None and err.type_name == "ERR_INVALID_ENCODING":
+                raise ParserException(err.message)
+            raise
 
         self._handle_version(root)
         doc = self.parse_element(root)
